@@ -357,15 +357,19 @@ def check_sampling(rep, repo):
     rep.check(len(lengths) >= 1, 'C08.R5', g.where, 'the list length is drawn at random', got='%d randint calls' % len(lengths), construct='no length draw')
     for t, e in lengths:
         fn = show(t[1])
+        from ..genfacts import bind_api
+        ba = bind_api(t) or {}
+        lo_, hi_ = (ba.get('low'), ba.get('high')) if fn != 'random.randint' else (ba.get('a'), ba.get('b'))
         if fn == 'np.random.randint':
-            ok = len(t[2]) == 2 and t[2][0] == pmin and t[2][1] in (BIN('Add', pmax, C(1)), BIN('Add', C(1), pmax))
+            ok = lo_ == pmin and hi_ in (BIN('Add', pmax, C(1)), BIN('Add', C(1), pmax))
             want = 'np.random.randint(pmin, pmax + 1)  (high is exclusive)'
         else:
-            ok = len(t[2]) == 2 and t[2][0] == pmin and t[2][1] == pmax
+            ok = lo_ == pmin and hi_ == pmax
             want = '%s(pmin, pmax)  (inclusive)' % fn
         rep.check(ok, 'C08.R5', g.where, 'every length in [pmin, pmax] can occur, nothing outside it', got=show(t), want=want, construct='length draw ' + show(t), loc=e.loc)
     for t, e in draws:
-        size = t[2][1] if len(t[2]) > 1 else dict(t[3]).get('size')
+        from ..genfacts import bind_api
+        size = (bind_api(t) or {}).get('size') or (t[2][1] if len(t[2]) > 1 else dict(t[3]).get('size'))
         ok = any(size == l[0] for l in lengths)
         rep.check(ok, 'C08.R5', g.where, 'the list has the drawn length', got=show(size)[:60] if size else None, want='the randint value', construct='list size argument', loc=e.loc)
     ti = repo.function('create_ties_indicators')
